@@ -780,3 +780,5 @@ META = {
     "reading tools.py/environ.py; a converter the table has never seen is reported in the evidence, not failed.",
     "more": "Also decided: the overlay's one-word unwrap indexes a value only where the guard implies the element exists for every shape of value; overlays stored in a loop over stages are created per iteration; Env.detype() never hands out its memoised mapping itself. Mutations of the type registry drop the memo; the type-lookup methods keep no state on the Env. A scoped override that ends never unsets a variable that was set before (the 'absent' marker only on evidence of absence); every value in the store passed its converter (no raw store outside _set_item).",
 }
+
+META["more"] += " Handing out a mutable container drops the memo under the mutable-container test alone (the type tuple may be a module constant). Dropping the private copy of a key recorded at capture time as 'had no private entry' is not an unset."
